@@ -32,6 +32,15 @@ fn pool() -> Vec<char> {
     v
 }
 
+/// C12 only: Latin Extended-A/B and Latin Extended Additional as well (composites of composites in the
+/// DejaVu faces, e.g. U+01D5, U+1EBF)
+fn wide_pool() -> Vec<char> {
+    let mut v = pool();
+    v.extend((0x100u32..0x250).filter_map(char::from_u32));
+    v.extend((0x1E00u32..0x1F00).filter_map(char::from_u32));
+    v
+}
+
 fn load_fonts() -> Vec<(&'static str, &'static str, Vec<u8>)> {
     FONTS.iter().filter_map(|(n, p)| std::fs::read(p).ok().filter(|b| b.len() > 1000).map(|b| (*n, *p, b))).collect()
 }
@@ -45,7 +54,7 @@ pub fn run(ctx: &Ctx, rec: &mut Recorder) -> Result<(), String> {
     if fonts.len() < 2 {
         return Err("font fixtures missing".into());
     }
-    let pool = pool();
+    let pool = if flavor == "c12" { wide_pool() } else { pool() };
     let ncases = if flavor == "c12" { ctx.qt(500u64, 30_000u64) } else { ctx.qt(320u64, 20_000u64) };
     for c in 0..ncases {
         if !ctx.mine(c) {
@@ -144,9 +153,16 @@ pub fn run(ctx: &Ctx, rec: &mut Recorder) -> Result<(), String> {
                         s = "x".into();
                     }
                     let size = *r.pick(&[9.0, 12.0, 18.0]);
-                    match page.text().set_font(Font::Custom(res_name.clone()), size).at(50.0, y).write(&s) {
-                        Ok(_) => shows.push(json!({"text": s, "font": fkey, "res": res_name, "size": size})),
-                        Err(e) => authoring_errors.push(e.to_string()),
+                    // a third of the strings are drawn through the graphics context (its own character tracking)
+                    let via_graphics = r.chance(1, 3);
+                    let res = if via_graphics {
+                        page.graphics().set_custom_font(&res_name, size).draw_text(&s, 50.0, y).map(|_| ()).map_err(|e| e.to_string())
+                    } else {
+                        page.text().set_font(Font::Custom(res_name.clone()), size).at(50.0, y).write(&s).map(|_| ()).map_err(|e| e.to_string())
+                    };
+                    match res {
+                        Ok(_) => shows.push(json!({"text": s, "font": fkey, "res": res_name, "size": size, "api": if via_graphics { "graphics" } else { "text" }})),
+                        Err(e) => authoring_errors.push(e),
                     }
                     y -= 30.0;
                 }
